@@ -5,7 +5,8 @@
 (* where the stored direction sequence starts, its orientation, chunking).  Actions:                    *)
 (*   representation changes  Transpose, Layout, Cast, RollDir, FlipDir, SortDir, Chunk                   *)
 (*   in-place edits          SetEfth(v)  (ds['efth'] = ...),  SetDir(g)  (obj['dir'] = ...), SetFreq       *)
-(*   calls                   Access (first touch of the accessor), Call(op), CallUnknown, OtherShape     *)
+(*   calls                   Access (first touch of the accessor), Call(op), CallUnknown, OtherShape,    *)
+(*                           ReaderCalls (files of every format read into OTHER objects, 1-D and 2-D)   *)
 (* In this abstract specification the VALUE OBSERVED BY A CALL IS A FUNCTION OF THE CURRENT CONTENTS AND *)
 (* THE OPERATION ONLY (obs), and a call leaves the object as it was (frame condition).  Mechanisms.tla   *)
 (* refines it with the places where the code keeps state; the harness replays every behaviour printed by *)
@@ -20,7 +21,7 @@ CONSTANTS OPS,        \* operation names
 
 RepActs == {"transpose_df", "transpose_lead", "fortran", "strided", "cast32", "bigendian", "roll1", "roll_seam", "flip", "sortdir",
             "chunk_lead", "chunk_freq", "chunk_dir", "chunk_all1"}
-EditActs == {"access", "call_other", "set_efth", "set_dir", "set_freq", "call_unknown", "other_shape"}
+EditActs == {"access", "call_other", "set_efth", "set_dir", "set_freq", "call_unknown", "other_shape", "reader_calls"}
 ASSUME REPACTS \subseteq RepActs /\ EDITACTS \subseteq EditActs
 
 VARIABLES rep,     \* representation record
@@ -60,7 +61,7 @@ DoRep(a) ==
 
 DoEdit(a) ==
   /\ a \in EDITACTS /\ Len(path) < MAXLEN /\ obs = <<>>
-  /\ \/ /\ a \in {"access", "call_other", "call_unknown", "other_shape"}
+  /\ \/ /\ a \in {"access", "call_other", "call_unknown", "other_shape", "reader_calls"}
         /\ path' = Append(path, Rec(a, 0)) /\ UNCHANGED ver          \* calls do not change contents (frame)
      \/ /\ a = "set_efth" /\ \E v \in (1..NVER) \ {ver.efth} : ver' = [ver EXCEPT !.efth = v] /\ path' = Append(path, Rec(a, v))
      \/ /\ a = "set_dir" /\ \E g \in (1..NGRID) \ {ver.grid} : ver' = [ver EXCEPT !.grid = g] /\ path' = Append(path, Rec(a, g))
